@@ -19,6 +19,7 @@ CONSTANTS
   RearmPerRead = FALSE
   NoCloseOnError = FALSE
   RearmAfterConnect = FALSE
+  UdpStrays = "dropped"
 CHECK_DEADLOCK FALSE
 CONSTRAINT HighWater
 POSTCONDITION Report
